@@ -16,6 +16,9 @@ def emit_tu(rep, unit_exprs, units):
          "  vf::install_handlers();", '  auto U = [&](int i) { return argc > i ? strtoull(argv[i], 0, 10) : 0ull; };']
     for i, (name, expr) in enumerate(unit_exprs):
         L.append(f'  {{ using namespace au; vfw::run_zero<decltype({expr}), R>({i}, "{rep}", "{name}", U(1), U(2) + {i}); }}')
+    # user-defined reps whose default-constructed value is not their numeric zero (NaN-poisoned double, sentinel integer)
+    for i, (name, expr) in enumerate(unit_exprs[:3]):
+        L.append(f'  {{ using namespace au; vfw::run_zero_udrep<decltype({expr}), double, 0>({500 + i}, "user-defined rep (double, default NaN)", "{name}"); vfw::run_zero_udrep<decltype({expr}), long long, 1>({600 + i}, "user-defined rep (long long, default -999)", "{name}"); vfw::run_zero_udrep<decltype({expr}), float, 0>({700 + i}, "user-defined rep (float, default NaN)", "{name}"); }}')
     # conversions of ZERO to every arithmetic type and chrono durations (checked once per TU)
     L.append('  { unsigned long long bad = 0, n = 0;')
     for t in ARITH:
@@ -111,9 +114,10 @@ def run(chk, which="C19"):
         for ev in events:
             if ev["ev"] == "zero":
                 evals += ev["evals"]
-                distinct.add((rep, ev["unit"]))
+                rep_ = ev["rep"] if ev["rep"].startswith("user-defined") else rep
+                distinct.add((rep_, ev["unit"]))
                 for w in ev["wit"]:
-                    chk.violation(f'C19|value|rep={rep}|op={w["op"]}|x={w["a"]}', msg=f'{fl}: `{w["op"]}` with q={w["a"]} ({rep}, unit {ev["unit"]}): got {w["got"]}, raw expression with 0 gives {w["want"]}')
+                    chk.violation(f'C19|value|rep={rep_}|op={w["op"]}|x={w["a"]}', msg=f'{fl}: `{w["op"]}` with q={w["a"]} ({rep_}, unit {ev["unit"]}): got {w["got"]}, raw expression with 0 gives {w["want"]}')
                 if len(chk.cov["samples"]) < 8:
                     chk.sample({"rep": rep, "unit": ev["unit"], "build": fl, "values": ev["values"], "expression_evaluations": ev["evals"]})
             elif ev["ev"] == "zconv":
